@@ -193,6 +193,10 @@ def requester_peer_event(position, kind, event):
         raise Violation('%s:peer-event:not-ended' % PROP, 'provider not stopped', case)
 
 
+class _Done(Exception):
+    pass
+
+
 def requester_exit(mode, where, results=(0,)):
     """mode: 'normal' | 'Boom' | 'KeyError' | 'NetDICOMError' | 'generator'; where: 'first' | 'between';
     results: result codes the peer answers the proposed contexts with (cycled) - an association whose contexts
@@ -207,6 +211,17 @@ def requester_exit(mode, where, results=(0,)):
     raised = None
     try:
         with fd.installed(fac):
+            if mode == 'normal-in-handler':
+                # the association is requested, used and left normally while the caller is handling an unrelated
+                # earlier error (fall-back code in an except block): still a normal exit
+                try:
+                    raise IOError('primary archive unreachable')
+                except IOError:
+                    with ae.request_association(dict(REMOTE)) as assoc:
+                        if where == 'between':
+                            exchange(assoc, 'echo', 0)
+                mode = 'normal'
+                raise _Done()
             with ae.request_association(dict(REMOTE)) as assoc:
                 if where == 'between':
                     exchange(assoc, 'echo', 0)
@@ -218,6 +233,8 @@ def requester_exit(mode, where, results=(0,)):
                     raise thrown
                 if thrown is not None:
                     raise thrown
+    except _Done:
+        pass
     except BaseException as exc:     # noqa
         raised = exc
     dul = fac.instances[0]
@@ -498,7 +515,7 @@ def run(ctx):
             ctx.case(('peer', pos, ev), pos != 'first' or ev[1:] not in ((), (0, 0)), labels=['peer-' + ev[0], 'at=' + pos],
                      sample={'position': pos, 'event': ev})
             ctx.check(requester_peer_event, pos, kind, ev)
-    for mode in ('normal', 'Boom', 'KeyError', 'NetDICOMError', 'generator'):
+    for mode in ('normal', 'normal-in-handler', 'Boom', 'KeyError', 'NetDICOMError', 'generator'):
         for where in ('first', 'between'):
             ctx.case(('exit', mode, where), mode != 'normal' or where == 'between', labels=['exit=' + mode],
                      sample={'exit': mode, 'where': where})
